@@ -1,8 +1,11 @@
 import SqlgrepModel.Model.Eval
 /-
 When does the evaluator model stop for a missing external fact (`Outcome.oracleMissing`, which a run reports as
-`skipped`)?  Only inside `callFunction`, at four sites: `upper` / `lower` of a non-ASCII text that is not in the shipped
-table, `regexp_matches` on a (value, pattern) pair that is not in the shipped table, and `now()` (always).  This file
+`skipped`)?  Only inside `callFunction`, at four sites, and only when the oracle has no total functions behind its finite
+tables (`O.total = none`, as in every oracle the driver builds): `upper` / `lower` of a non-ASCII text that is not in
+the shipped table, `regexp_matches` on a (value, pattern) pair that is not in the shipped table, and `now()`.  With total
+functions (`Oracles.Total`) no call is ever unanswered (`NM_callFunction_total`) — the form in which C09's "results or a
+reported error" is stated for EVERY statement.  This file
 proves it in two layers, structured like `Lemmas/NoPanic.lean`:
 
 * generic: if every function symbol occurring in an expression satisfies `ok`, and calls of `ok` functions never
@@ -115,17 +118,20 @@ theorem NM_callFunction_factFree (O : Oracles) (f : Func) (hf : factFreeFunc f =
   unfold callFunction
   repeat' (first | rfl | exact NM_dateTrunc _ _ _ _ | exact NM_makeTimestampOf _ _ _ _ _ _ _ | (exfalso; revert hf; decide) | split | (dsimp only))
 
-/-- the four places where `callFunction` stops for a missing fact, with the name of the fact it reports -/
+/-- the four places where `callFunction` stops for a missing fact, with the name of the fact it reports — all four only
+when the oracle has no total functions behind its tables (`O.total = none`: every oracle the driver builds) -/
 inductive MissingSite (O : Oracles) : Func → List Value → String → Prop where
   /-- `upper(s)`: `s` is not ASCII and `str::to_uppercase(s)` was not shipped -/
-  | upper (s : Bytes) (ha : isAscii s = false) (hl : lookupB O.upper s = none) : MissingSite O .upper [.text s] "upper"
+  | upper (s : Bytes) (ha : isAscii s = false) (hl : lookupB O.upper s = none) (ht : O.total = none) :
+      MissingSite O .upper [.text s] "upper"
   /-- `lower(s)`: `s` is not ASCII and `str::to_lowercase(s)` was not shipped -/
-  | lower (s : Bytes) (ha : isAscii s = false) (hl : lookupB O.lower s = none) : MissingSite O .lower [.text s] "lower"
+  | lower (s : Bytes) (ha : isAscii s = false) (hl : lookupB O.lower s = none) (ht : O.total = none) :
+      MissingSite O .lower [.text s] "lower"
   /-- `regexp_matches(v, p)`: the verdict of `Regex::new(p)` / `is_match(v)` on this pair was not shipped -/
-  | regex (v p : Bytes) (hl : O.regex.find? (fun e => e.1.1 == v && e.1.2 == p) = none) :
+  | regex (v p : Bytes) (hl : O.regex.find? (fun e => e.1.1 == v && e.1.2 == p) = none) (ht : O.total = none) :
       MissingSite O .regexMatches [.text v, .text p] "regex"
-  /-- `now()`: the model has no clock; it always stops -/
-  | now : MissingSite O .now [] "now"
+  /-- `now()`: the model has no clock of its own; without a total oracle it always stops -/
+  | now (ht : O.total = none) : MissingSite O .now [] "now"
 
 /-- `callFunction` stops for a missing fact only at one of the four sites … -/
 theorem callFunction_missing_site (O : Oracles) (f : Func) (args : List Value) (w : String)
@@ -137,77 +143,96 @@ theorem callFunction_missing_site (O : Oracles) (f : Func) (args : List Value) (
     | cases h
     | exact absurd h ((NM_iff _).1 (NM_dateTrunc _ _ _ _) w)
     | exact absurd h ((NM_iff _).1 (NM_makeTimestampOf _ _ _ _ _ _ _) w))
-  · rename_i s hna _ hl
-    exact .upper s (by simpa using hna) hl
-  · rename_i s hna _ hl
-    exact .lower s (by simpa using hna) hl
-  · rename_i v p _ hl
-    exact .regex v p (by simpa using hl)
-  · exact .now
+  · rename_i s hna _ hl _ ht
+    exact .upper s (by simpa using hna) hl ht
+  · rename_i s hna _ hl _ ht
+    exact .lower s (by simpa using hna) hl ht
+  · rename_i v p _ hl _ ht
+    exact .regex v p (by simpa using hl) ht
+  · rename_i ht
+    exact .now ht
 
 /-- … and at each of them it does stop -/
 theorem callFunction_at_missing_site (O : Oracles) (f : Func) (args : List Value) (w : String)
     (h : MissingSite O f args w) : callFunction O f args = .oracleMissing w := by
   cases h with
-  | upper s ha hl => simp [callFunction, ha, hl]
-  | lower s ha hl => simp [callFunction, ha, hl]
-  | regex v p hl => simp [callFunction, hl]
-  | now => simp [callFunction]
+  | upper s ha hl ht => simp [callFunction, ha, hl, ht]
+  | lower s ha hl ht => simp [callFunction, ha, hl, ht]
+  | regex v p hl ht => simp [callFunction, hl, ht]
+  | now ht => simp [callFunction, ht]
 
 /-- **exactly when a function call is skipped** -/
 theorem callFunction_missing_iff (O : Oracles) (f : Func) (args : List Value) (w : String) :
     callFunction O f args = .oracleMissing w ↔ MissingSite O f args w :=
   ⟨callFunction_missing_site O f args w, callFunction_at_missing_site O f args w⟩
 
+/-- **a total oracle answers every call**: with total functions behind the tables (`O.Total`) no function call —
+whatever the function, whatever the arguments — stops for a missing fact -/
+theorem NM_callFunction_total (O : Oracles) (hT : O.Total) (f : Func) (args : List Value) : NM (callFunction O f args) := by
+  obtain ⟨T, hT⟩ := hT
+  rw [NM_iff]
+  intro w hw
+  have hs := callFunction_missing_site O f args w hw
+  cases hs with
+  | upper _ _ _ ht => rw [hT] at ht; cases ht
+  | lower _ _ _ ht => rw [hT] at ht; cases ht
+  | regex _ _ _ ht => rw [hT] at ht; cases ht
+  | now ht => rw [hT] at ht; cases ht
+
 /-- the site characterisation, read per function: `upper` -/
 theorem upper_missing_iff (O : Oracles) (s : Bytes) :
-    (callFunction O .upper [.text s]).isMissing = true ↔ isAscii s = false ∧ lookupB O.upper s = none := by
+    (callFunction O .upper [.text s]).isMissing = true ↔ isAscii s = false ∧ lookupB O.upper s = none ∧ O.total = none := by
   constructor
   · intro h
     cases hc : callFunction O .upper [.text s] with
     | oracleMissing w =>
       have hs := callFunction_missing_site O _ _ w hc
       cases hs with
-      | upper _ ha hl => exact ⟨ha, hl⟩
+      | upper _ ha hl ht => exact ⟨ha, hl, ht⟩
     | ok a => rw [hc] at h; cases h
     | error k => rw [hc] at h; cases h
     | panic k => rw [hc] at h; cases h
-  · rintro ⟨ha, hl⟩
-    rw [callFunction_at_missing_site O _ _ _ (.upper s ha hl)]; rfl
+  · rintro ⟨ha, hl, ht⟩
+    rw [callFunction_at_missing_site O _ _ _ (.upper s ha hl ht)]; rfl
 
 theorem lower_missing_iff (O : Oracles) (s : Bytes) :
-    (callFunction O .lower [.text s]).isMissing = true ↔ isAscii s = false ∧ lookupB O.lower s = none := by
+    (callFunction O .lower [.text s]).isMissing = true ↔ isAscii s = false ∧ lookupB O.lower s = none ∧ O.total = none := by
   constructor
   · intro h
     cases hc : callFunction O .lower [.text s] with
     | oracleMissing w =>
       have hs := callFunction_missing_site O _ _ w hc
       cases hs with
-      | lower _ ha hl => exact ⟨ha, hl⟩
+      | lower _ ha hl ht => exact ⟨ha, hl, ht⟩
     | ok a => rw [hc] at h; cases h
     | error k => rw [hc] at h; cases h
     | panic k => rw [hc] at h; cases h
-  · rintro ⟨ha, hl⟩
-    rw [callFunction_at_missing_site O _ _ _ (.lower s ha hl)]; rfl
+  · rintro ⟨ha, hl, ht⟩
+    rw [callFunction_at_missing_site O _ _ _ (.lower s ha hl ht)]; rfl
 
 theorem regex_missing_iff (O : Oracles) (v p : Bytes) :
     (callFunction O .regexMatches [.text v, .text p]).isMissing = true ↔
-      O.regex.find? (fun e => e.1.1 == v && e.1.2 == p) = none := by
+      O.regex.find? (fun e => e.1.1 == v && e.1.2 == p) = none ∧ O.total = none := by
   constructor
   · intro h
     cases hc : callFunction O .regexMatches [.text v, .text p] with
     | oracleMissing w =>
       have hs := callFunction_missing_site O _ _ w hc
       cases hs with
-      | regex _ _ hl => exact hl
+      | regex _ _ hl ht => exact ⟨hl, ht⟩
     | ok a => rw [hc] at h; cases h
     | error k => rw [hc] at h; cases h
     | panic k => rw [hc] at h; cases h
-  · intro hl
-    rw [callFunction_at_missing_site O _ _ _ (.regex v p hl)]; rfl
+  · rintro ⟨hl, ht⟩
+    rw [callFunction_at_missing_site O _ _ _ (.regex v p hl ht)]; rfl
 
-/-- `now()` is always skipped by the model -/
-theorem now_always_missing (O : Oracles) : callFunction O .now [] = .oracleMissing "now" := rfl
+/-- `now()` is skipped exactly when the oracle has no clock reading — always, for the oracles the driver builds -/
+theorem now_missing_iff (O : Oracles) : callFunction O .now [] = .oracleMissing "now" ↔ O.total = none := by
+  constructor
+  · intro h
+    cases callFunction_missing_site O _ _ _ h with
+    | now ht => exact ht
+  · intro ht; exact callFunction_at_missing_site O _ _ _ (.now ht)
 
 /-! ### which functions an expression calls -/
 
@@ -237,6 +262,37 @@ def Expr.allFuncsList (ok : Func → Bool) : List Expr → Bool
 def Expr.allFuncsCases (ok : Func → Bool) : List (Expr × Expr) → Bool
   | [] => true
   | (c, r) :: rest => c.allFuncs ok && r.allFuncs ok && Expr.allFuncsCases ok rest
+end
+
+/-- the trivial instance: every function symbol is allowed — true of every expression -/
+abbrev anyFunc : Func → Bool := fun _ => true
+
+mutual
+theorem Expr.allFuncs_any : ∀ e : Expr, e.allFuncs anyFunc = true
+  | .value _ => rfl
+  | .column _ => rfl
+  | .scoped _ _ => rfl
+  | .wildcard => rfl
+  | .compare _ l r => by simp only [Expr.allFuncs, Expr.allFuncs_any l, Expr.allFuncs_any r, Bool.and_self]
+  | .nullCmp _ l r => by simp only [Expr.allFuncs, Expr.allFuncs_any l, Expr.allFuncs_any r, Bool.and_self]
+  | .arith _ l r => by simp only [Expr.allFuncs, Expr.allFuncs_any l, Expr.allFuncs_any r, Bool.and_self]
+  | .boolOp _ l r => by simp only [Expr.allFuncs, Expr.allFuncs_any l, Expr.allFuncs_any r, Bool.and_self]
+  | .neg e => by simp only [Expr.allFuncs, Expr.allFuncs_any e]
+  | .not e => by simp only [Expr.allFuncs, Expr.allFuncs_any e]
+  | .inList _ e vs => by simp only [Expr.allFuncs, Expr.allFuncs_any e, Expr.allFuncsList_any vs, Bool.and_self]
+  | .call _ args => by simp only [Expr.allFuncs, Expr.allFuncsList_any args, Bool.and_self]
+  | .index a i => by simp only [Expr.allFuncs, Expr.allFuncs_any a, Expr.allFuncs_any i, Bool.and_self]
+  | .cast e _ => by simp only [Expr.allFuncs, Expr.allFuncs_any e]
+  | .case clauses els => by simp only [Expr.allFuncs, Expr.allFuncsCases_any clauses, Expr.allFuncs_any els, Bool.and_self]
+  | .groupKeyRef _ => rfl
+  | .groupValueRef _ => rfl
+theorem Expr.allFuncsList_any : ∀ es : List Expr, Expr.allFuncsList anyFunc es = true
+  | [] => rfl
+  | e :: es => by simp only [Expr.allFuncsList, Expr.allFuncs_any e, Expr.allFuncsList_any es, Bool.and_self]
+theorem Expr.allFuncsCases_any : ∀ cs : List (Expr × Expr), Expr.allFuncsCases anyFunc cs = true
+  | [] => rfl
+  | (c, r) :: rest => by
+    simp only [Expr.allFuncsCases, Expr.allFuncs_any c, Expr.allFuncs_any r, Expr.allFuncsCases_any rest, Bool.and_self]
 end
 
 /-- the expression calls none of `upper`, `lower`, `regexp_matches`, `now` (at any depth) -/
@@ -352,5 +408,10 @@ end
 /-- **the syntactic instance**: a fact-free expression is evaluated without any external fact — for ALL oracle tables -/
 theorem NM_eval_factFree (O : Oracles) (env : Env) (e : Expr) (h : e.factFree = true) : NM (eval O env e) :=
   NM_eval O factFreeFunc (NM_callFunction_factFree O) env e h
+
+/-- **the total instance**: with total functions behind the tables EVERY expression is evaluated without stopping for a
+missing fact, in every environment -/
+theorem NM_eval_total (O : Oracles) (hT : O.Total) (env : Env) (e : Expr) : NM (eval O env e) :=
+  NM_eval O anyFunc (fun f _ => NM_callFunction_total O hT f) env e (Expr.allFuncs_any e)
 
 end Sqlgrep
